@@ -53,7 +53,8 @@ class ChunkParser:
                 self.chunk = raw
                 raw = b''
             else:
-                self.size = int(line, 16)
+                # chunk-size [ chunk-ext ]
+                self.size = int(line.split(b';', 1)[0].strip(), 16)
                 self.state = chunkParserStates.WAITING_FOR_DATA
         elif self.state == chunkParserStates.WAITING_FOR_DATA:
             assert self.size is not None
